@@ -34,11 +34,12 @@ class regex_class_uniformity:
 
     @staticmethod
     def cases():
-        return [dict(regex=n) for n in (
-            "RE_NBSP", "RE_SPACES", "RE_TRIM_SPACES", "RE_TRIM_COLONS", "RE_SANITIZE_SKIP",
-            "RE_SANITIZE_RUSSIAN", "RE_SANITIZE_CROATIAN", "RE_SANITIZE_PERIOD", "RE_SANITIZE_ON",
-            "RE_SANITIZE_APOSTROPHE", "RE_SEARCH_TIMESTAMP", "RE_SEARCH_NEGATIVE_TIMESTAMP",
-            "strip_braces", "NUMERAL_PATTERN")]
+        # every RE_* constant the module defines on this run (a renamed or merged constant changes
+        # the obligation set, which the baseline comparison reports)
+        import dateparser.date as D
+
+        names = sorted(n for n in dir(D) if n.startswith("RE_") and hasattr(getattr(D, n), "pattern"))
+        return [dict(regex=n) for n in names + ["strip_braces", "NUMERAL_PATTERN"]]
 
     @staticmethod
     def setup(inp, case):
